@@ -325,6 +325,7 @@ func (a *Act) blockIn(b *ssa.BasicBlock) *State {
 			tr.declare(fmt.Sprintf("(declare-fun %s (%s) Bool)", li.visName, a.sortOf(mt.Key())))
 			name := li.visName
 			li.visHead = func(x Term) Term { return app(name, x) }
+			li.visCountHead = tr.freshConst("viscount", "Int")
 		}
 	}
 	a.setupLoopInvariants(li, phiEntry)
